@@ -59,13 +59,20 @@ def rfcFlags : List (Nat × Nat) :=
    (7, 0xC0), (8, 0xC0), (16, 0xC0), (17, 0xC0), (18, 0xC0), (20, 0xC0), (21, 0xC0), (25, 0xC0),
    (32, 0xC0), (35, 0xC0), (128, 0xC0)]
 
-/-- **generated_flags_agree**: the model's canonical flags ARE the table of the source as it is
-now – for every type code an octet can hold (so also: exactly the source's rows are typed kinds),
-and for each of the 20 typed kinds of the model -/
+/-- **generated_flags_agree**: the model's canonical flags ARE the (type code, `A::FLAGS`) table the
+`path_attributes!` macro makes of its invocation as the source is now (the `Flags::` constant of each
+row put through the macro's `const FLAGS: u8 = <expr>`, `TYPE_CODE` = the row's code, `default_flags`
+= `<$data>::FLAGS.into()`: translated from the macro DEFINITION, see Rc/Gen/AttrFlags.lean) – for
+every type code an octet can hold (so also: exactly the source's rows are typed kinds), and for each
+of the 20 typed kinds of the model; the model's `extBit` is the mask test of the source's
+`Flags::is_extended_length`; and the `Invalid` attribute built for a typed kind that does not
+validate carries these flags, not the received ones -/
 theorem generated_flags_agree :
     (∀ c, c < 256 → canonicalFlags c = Rc.Gen.attrFlagsOf c) ∧
-    (∀ a : TypedAttr, Rc.Gen.attrFlagsOf a.code = some a.flags) := by
-  refine ⟨by decide +kernel, ?_⟩
+    (∀ a : TypedAttr, Rc.Gen.attrFlagsOf a.code = some a.flags) ∧
+    (∀ n, n < 256 → extBit (UInt8.ofNat n) = (n &&& Rc.Gen.isExtendedLenTest.1 == Rc.Gen.isExtendedLenTest.2)) ∧
+    Rc.Gen.invalidArmFromWire = false ∧ Rc.Gen.invalidArmFlags = Rc.Gen.attrFlags := by
+  refine ⟨by decide +kernel, ?_, by decide +kernel, by decide, by decide⟩
   intro a
   cases a <;> simp only [TypedAttr.code, TypedAttr.flags] <;> decide
 
@@ -73,7 +80,11 @@ theorem generated_flags_agree :
 give it, the table holds no other row than those and the development code 255 (RFC 2042, no
 category defined; as coded: optional transitive), no code twice; the two MP attributes the typed
 table leaves out are optional non-transitive (RFC 4760); and the flag constants are the bit
-positions of RFC 4271 4.3 -/
+positions of RFC 4271 4.3.  `rfcFlags` is typed from the documents (a genuine second side).  The
+second conjunct pins the source's table to `rfcFlags` + code 255: adding ANY typed kind to
+`path_attributes!` (also one with the flags its RFC gives it) fails it until `rfcFlags` is extended
+from that RFC - an alarm on every extension, not only on a wrong one (as is `generated_flags_agree`,
+whose model side has to learn the new kind too) -/
 theorem generated_flags_rfc :
     (∀ r ∈ rfcFlags, Rc.Gen.attrFlagsOf r.1 = some r.2) ∧
     (∀ r ∈ Rc.Gen.attrFlags, r ∈ rfcFlags ∨ r = (255, 0xC0)) ∧
